@@ -10,7 +10,7 @@ from .. import conform, conv, env, gen, monitors, oracles, sched
 ID, TITLE, LEVEL = 'C16', 'writer pipeline: interleavings', 'exploration'
 RULE = ('case = one pipeline configuration (route in {NumPy, SEG-Y 3D, SEG-Y 3D thorough detection, SEG-Y reduced-I/O, 2D}, 1-3 plane '
         'sets / trace groups, queue capacity in {1,2,16}, whole-plane-set or per-block layout) explored under a serialising '
-        'scheduler at the granularity queue put/get/task_done/join, thread start, file write: depth-first search with prefix '
+        'scheduler at the granularity queue put/get/task_done/join, thread start, file write (plus the entry of the codec call, where the compressor holds a buffer it has taken but not yet consumed): depth-first search with prefix '
         'replay over the graph of abstract states (per-thread operation count + pending operation + last item received, ordered '
         'content hashes and unfinished counts of both queues, hash and count of file writes) until every enabled choice of every '
         'reached state has been taken (mode dfs, reported exhaustive when it completes inside its execution budget) or, for the '
@@ -95,8 +95,17 @@ def run_one(job, out, chooser, cap):
         S.yield_(lambda: True, 'write')
         S.note_write(data)
     rec.before_write = before_write
-    oldq, oldt = CU.Queue, CU.Thread
-    CU.Queue, CU.Thread = IQ, IT
+    oldq, oldt, oldz = CU.Queue, CU.Thread, CU.zfpy
+
+    class _Zfpy:
+        """the codec call is a further yield point: the compressor holds a buffer it has taken from the queue but not consumed yet"""
+        def __getattr__(self, name):
+            return getattr(oldz, name)
+
+        def compress_numpy(self, arr, *a, **k):
+            S.yield_(lambda: True, 'compress')
+            return oldz.compress_numpy(arr, *a, **k)
+    CU.Queue, CU.Thread, CU.zfpy = IQ, IT, _Zfpy()
     C.open = rec
     err = None
     try:
@@ -111,7 +120,7 @@ def run_one(job, out, chooser, cap):
         else:
             S.abort()
     finally:
-        CU.Queue, CU.Thread = oldq, oldt
+        CU.Queue, CU.Thread, CU.zfpy = oldq, oldt, oldz
         del C.open
     # let unwound daemon threads exit
     t0 = time.time()
